@@ -583,7 +583,7 @@ class Workspace(AbstractContextManager):
                 return created_entity
 
         # Special case for CustomGroup without uuid
-        if entity_class == Group:
+        if entity_class in (Group, CustomGroup):
             entity_type = groups.custom.CustomGroup.find_or_create_type(
                 self, **entity_type_kwargs
             )
